@@ -5,6 +5,7 @@ use std::panic;
 use serde_json::Value;
 
 mod packet_window;
+mod ss_udp;
 
 fn main() {
     let path = std::env::args().nth(1).expect("spec path");
@@ -35,6 +36,7 @@ fn main() {
 fn dispatch(entry: &str, spec: &Value) -> Result<Option<String>, String> {
     match entry {
         "packet_window_history" => packet_window::history(spec),
+        "client_udp_refused_id" => ss_udp::client_refused_id(spec),
         _ => Err(format!("unknown entry {entry}")),
     }
 }
